@@ -202,6 +202,26 @@ pub fn build(spec: &NetSpec) -> Result<Network, String> {
     build_with(spec, false)
 }
 
+/// the layers as the public builder creates them (randomly initialised parameters left in place, no connections)
+pub fn build_fresh(spec: &NetSpec) -> Result<Network, String> {
+    try_run(|| {
+        let mut net = Network::new(spec.input.clone());
+        for b in &spec.builds {
+            match b {
+                Build::Layer(s) => match s {
+                    InnerSpec::Dense { out, act, bias, dropout, .. } => net.dense(*out, act_of(act), *bias, *dropout),
+                    InnerSpec::Conv { filters, act, k, s, p, d, dropout, .. } => net.convolution(*filters, *k, *s, *p, *d, act_of(act), *dropout),
+                    InnerSpec::Deconv { filters, act, k, s, p, dropout, .. } => net.deconvolution(*filters, *k, *s, *p, act_of(act), *dropout),
+                    InnerSpec::Maxpool { k, s } => net.maxpool(*k, *s),
+                },
+                Build::Feedback { inner, loops, inskips, outskips, acc } => net.feedback(inner.iter().map(fb_layer).collect(), *loops, *inskips, *outskips, acc_of(acc)),
+                _ => (),
+            }
+        }
+        net
+    })
+}
+
 /// an input of the network's input shape (for the evaluations a "warm" build makes along the way)
 fn warm_input(shape: &Shape) -> Tensor {
     let val = |i: usize| 0.25 * (i % 5) as f32 - 0.4;
@@ -375,6 +395,14 @@ pub fn samples(p: &mut Toks, k: usize) -> (Vec<Tensor>, Vec<Tensor>) {
     (xs, ts)
 }
 
+/// the same call made a second time on the same network object gives the same answer (bit for bit, panics included):
+/// nothing a call leaves behind in the network, the thread or the process may enter the next one
+fn repeated(ctx: &mut Ctx, spec: &NetSpec, what: &str, first: Option<String>, second: Option<String>) {
+    let same = first == second;
+    ctx.oracle(same, "repeated-call-differs", "a call repeated on the same network with the same arguments must return the same result",
+        format!("{} twice on {}", what, clip(&spec.token(), 800)), clip(&second.unwrap_or_else(|| "panic".into()), 300), clip(&first.unwrap_or_else(|| "panic".into()), 300));
+}
+
 pub fn exec(ctx: &mut Ctx, op: &str, p: &mut Toks) -> String {
     if op != "net" {
         return format!("bad unknown op {}", op);
@@ -412,6 +440,8 @@ pub fn exec(ctx: &mut Ctx, op: &str, p: &mut Toks) -> String {
             let x = p.tensor();
             let r = try_run(|| net.predict(&x));
             crate::ops::props::net_oracles_predict(ctx, &spec, &net, &x, &r);
+            let again = try_run(|| net.predict(&x));
+            repeated(ctx, &spec, "predict", r.as_ref().map(|y| rt(y)).ok(), again.as_ref().map(|y| rt(y)).ok());
             r.map(|y| rt(&y))
         }
         "forward" => {
@@ -431,6 +461,14 @@ pub fn exec(ctx: &mut Ctx, op: &str, p: &mut Toks) -> String {
                 (loss, wg, bg)
             });
             crate::ops::props::net_oracles_backward(ctx, &spec, &net, &x, &t, &r);
+            let again = try_run(|| {
+                let (pre, act, maxp, fbs) = net.forward(&x);
+                let (loss, grad) = net.verif_objective(act.last().unwrap(), &t);
+                let (wg, bg) = net.verif_backward(grad, &pre, &act, &maxp, fbs);
+                (loss, wg, bg)
+            });
+            let show = |v: &(f32, Vec<Tensor>, Vec<Option<Tensor>>)| format!("{} {} | {}", rf(v.0), v.1.iter().map(r_wgrad).collect::<Vec<_>>().join(" "), v.2.iter().map(r_bgrad).collect::<Vec<_>>().join(" "));
+            repeated(ctx, &spec, "forward + backward", r.as_ref().map(show).ok(), again.as_ref().map(show).ok());
             r.map(|(loss, wg, bg)| {
                 format!("{} {} | {}", rf(loss), wg.iter().map(r_wgrad).collect::<Vec<_>>().join(" "), bg.iter().map(r_bgrad).collect::<Vec<_>>().join(" "))
             })
@@ -441,6 +479,9 @@ pub fn exec(ctx: &mut Ctx, op: &str, p: &mut Toks) -> String {
             let xs = p.tensors(k);
             let r = try_run(|| net.predict_batch(&xs.iter().collect()));
             crate::ops::props::net_oracles_predict_batch(ctx, &spec, &net, &xs, &r);
+            let again = try_run(|| net.predict_batch(&xs.iter().collect()));
+            let show = |ys: &Vec<Tensor>| ys.iter().map(rt).collect::<Vec<_>>().join(" ");
+            repeated(ctx, &spec, "predict_batch", r.as_ref().map(show).ok(), again.as_ref().map(show).ok());
             r.map(|ys| ys.iter().map(rt).collect::<Vec<_>>().join(" "))
         }
         "validate" => {
@@ -454,6 +495,10 @@ pub fn exec(ctx: &mut Ctx, op: &str, p: &mut Toks) -> String {
             let xr: Vec<&Tensor> = xs.iter().collect();
             let tr: Vec<&Tensor> = ts.iter().collect();
             let r = try_run(|| net.validate(&xr, &tr, tol));
+            let first = r.as_ref().map(|(l, a)| format!("{} {} flags {}", rf(*l), rf(*a), r_flags(&net))).ok();
+            let again = try_run(|| net.validate(&xr, &tr, tol));
+            let second = again.as_ref().map(|(l, a)| format!("{} {} flags {}", rf(*l), rf(*a), r_flags(&net))).ok();
+            repeated(ctx, &spec, "validate", first, second);
             crate::ops::props::net_oracles_validate(ctx, &spec, &mut net, &xs, &ts, tol, train, &r);
             r.map(|(l, a)| format!("{} {} flags {}", rf(l), rf(a), r_flags(&net)))
         }
